@@ -303,10 +303,14 @@ func (env *e2eEnv) start(procMW []frugal.ServiceMiddleware, provMW []frugal.Serv
 		if w == 0 {
 			w = 1
 		}
-		srv := frugal.NewFNatsServerBuilder(env.srvConn, env.proc, env.pf, []string{"svc"}).WithWorkerCount(uint(w)).
-			WithRequestReceivedEventHandler(func(map[interface{}]interface{}) {}).
-			WithRequestStartedEventHandler(func(map[interface{}]interface{}) {}).
-			WithRequestFinishedEventHandler(func(map[interface{}]interface{}) {}).Build()
+		nb := frugal.NewFNatsServerBuilder(env.srvConn, env.proc, env.pf, []string{"svc"}).WithWorkerCount(uint(w))
+		if env.rc.Tape.Intn("hooks", 2) == 1 {
+			// application-supplied event hooks instead of the built-in ones (which time-stamp each request)
+			nb = nb.WithRequestReceivedEventHandler(func(map[interface{}]interface{}) {}).
+				WithRequestStartedEventHandler(func(map[interface{}]interface{}) {}).
+				WithRequestFinishedEventHandler(func(map[interface{}]interface{}) {})
+		}
+		srv := nb.Build()
 		env.srv = srv
 		env.serveDone = make(chan struct{}, 1)
 		env.s.Go("serve", func() {
